@@ -42,6 +42,38 @@ theorem C16_gen_shape :
     resolve "" = some .identity ∧
     Compression.installsNilForUnknown = false := by decide
 
+/-! ## compression levels -/
+
+theorem level_arith (l : Int) (h : ((l = -1 ∨ l = -2 ∨ l = 0) ∨ 1 ≤ l ∧ l ≤ 9) ∨ decide (l = 0) = true) :
+    decide (-2 ≤ if l = 0 then -1 else l) = true ∧ decide ((if l = 0 then -1 else l) ≤ 9) = true := by
+  simp only [decide_eq_true_eq] at h ⊢
+  by_cases h0 : l = 0
+  · simp [h0]
+  · simp only [h0, if_false]; omega
+
+/-- **Levels.** Every level `ClientConfig.Validate` accepts (the regenerated rules of `Type.ValidateParams`, every integer) gives a
+writer that exists once `ToClient` has replaced an unset level — so `compress` cannot meet the nil writer that a level outside
+the library's range would produce. (The library's own range is the trusted fact `libLevelOk`; that the writer then round-trips is
+the codec law, sampled by the differential at every accepted boundary level.) Breaks if `ValidateParams` is widened, if the
+writer switch starts/stops passing the level, or if the unset-level replacement changes. -/
+theorem C16_validated_level_constructs (t : String) (ht : t ∈ Compression.clientTypes) (hc : isCompressed t = true) (l : Int)
+    (h : levelAccepted t l = true) : writerLevelOk t (effLevel l) = true := by
+  simp only [Compression.clientTypes, List.mem_cons, List.mem_nil_iff, or_false] at ht
+  rcases ht with rfl | rfl | rfl | rfl | rfl | rfl | rfl | rfl
+  all_goals first
+    | (exfalso; revert hc; decide)
+    | (simp [levelAccepted, Compression.anyLevelTypes, Compression.levelRules, Compression.fallbackLevel, assoc] at h
+       simp [writerLevelOk, Compression.writers, Compression.writerPassesLevel, assoc, libLevelOk, effLevel, Compression.unsetLevelBecomes]
+       try exact level_arith l h)
+
+/-- the rule is not vacuous and not everything: boundary levels on both sides -/
+example : levelAccepted "gzip" (-2) = true ∧ levelAccepted "gzip" (-3) = false ∧ levelAccepted "gzip" 9 = true ∧
+    levelAccepted "gzip" 10 = false ∧ levelAccepted "zstd" 100 = true ∧ levelAccepted "snappy" 0 = true ∧
+    levelAccepted "snappy" 1 = false ∧ levelAccepted "lz4" (-1) = false := by decide
+
+/-- what the theorem protects against: were level 10 accepted for gzip, no writer would exist -/
+example : writerLevelOk "gzip" (effLevel 10) = false ∧ writerLevelOk "deflate" (effLevel (-3)) = false := by decide
+
 /-! ## helper lemmas -/
 
 theorem limitRead_le (n : Nat) (s : Stream) : (limitRead n s).data.length ≤ n := by
@@ -498,8 +530,10 @@ theorem C16_passthrough_limited (codec : String → Codec) (s : Server) (name : 
   rw [C16_gen_shape.1]
   simp [decoderFor, hc]
 
-/-- **`WithErrorHandler`.** A custom error handler changes nothing about *whether* the base handler runs or what it
-reads; it only decides how a rejection is answered, and it is handed the client-error status. -/
+/-- **`WithErrorHandler`** (bookkeeping: true by the shape of `Outcome.answeredBy`, which only rewrites the rejection arm; the tie
+to the code is the translator's shape check of `ServeHTTP` — one `errHandler` call, followed by `return` — and the harness's custom
+handler; the driver executes `Outcome.answeredBy`). A custom error handler changes nothing about *whether* the base handler runs or
+what it reads; it only decides how a rejection is answered, and it is handed the client-error status. -/
 theorem C16_error_handler (eh : Option (Nat → Nat)) (codec : String → Codec) (s : Server) (r : Request) :
     (∀ st, serveE eh codec s r = .handled st ↔ serveS codec s r = .handled st) ∧
     (serveE eh codec s r = .panicked ↔ serveS codec s r = .panicked) ∧
@@ -520,15 +554,16 @@ theorem C16_error_handler (eh : Option (Nat → Nat)) (codec : String → Codec)
         · cases h
   unfold serveE
   cases ho : serveS codec s r with
-  | handled st' => simp
-  | panicked => simp
+  | handled st' => simp [Outcome.answeredBy]
+  | panicked => simp [Outcome.answeredBy]
   | rejected st' =>
     have := hrej st' ho
     subst this
-    simp
+    simp [Outcome.answeredBy]
 
-/-- **Streaming.** However the handler consumes the body — all at once, in chunks, a prefix only, not at all —
-what it has in hand is a prefix of what a full read yields, hence never more than the limit. -/
+/-- **Streaming** (bookkeeping: `handlerReads` is *defined* as a prefix, so the only content beyond `C16_limit_custom` is that
+definition, which the harness's read modes tie to `net/http` bodies). However the handler consumes the body — all at once, in
+chunks, a prefix only, not at all — what it has in hand is a prefix of what a full read yields, hence never more than the limit. -/
 theorem C16_limit_any_read_mode (codec : String → Codec) (s : Server) (r : Request) (m : ReadMode) (st : Stream)
     (h : (serveS codec s r).read m = .handled st) :
     st.data.length ≤ s.limit ∧ ∃ full, serveS codec s r = .handled full ∧ st.data = full.data.take st.data.length := by
@@ -548,10 +583,19 @@ theorem C16_limit_any_read_mode (codec : String → Codec) (s : Server) (r : Req
         simp [handlerReads, hk, Nat.min_eq_left hk]
       · exact ⟨by simp [handlerReads, hk]; exact hl, full, rfl, by simp [handlerReads, hk]⟩
 
+/-- (bookkeeping: read off the definition of `handlerView`, which mirrors the `if newBody != nil` block of `ServeHTTP` and is
+tied by the recording handler's `obs view` line.) A handler behind a real decoder never sees the compressed length or the
+encoding label: it cannot mistake the compressed size for the size of what it reads. -/
+theorem C16_decoded_request_is_relabelled (s : Server) (r : Request) (k : Bool) (l : String)
+    (h : decoderFor s r.encoding = some (.lib l)) : handlerView s r k = ⟨none, false⟩ := by
+  simp [handlerView, h]
+
 theorem C16_package_state_only_read : Compression.availableDecodersOnlyRead = true := by decide
 
-/-- **Isolation.** Whatever servers (with whatever `WithDecoder` options) were built before, the process-level
-decoder table is untouched … -/
+/-- **Isolation** (bookkeeping over a translator flag: `Proc.construct` is the identity exactly when
+`Compression.availableDecodersOnlyRead`, so this theorem *is* that flag — the content is the translator's scan of every non-test file
+of the package plus the multi-server harness cases; the `else` branch of `Proc.construct` is a hypothetical, tied to no code).
+Whatever servers (with whatever `WithDecoder` options) were built before, the process-level decoder table is untouched … -/
 theorem C16_isolation (ss : List Server) : ss.foldl Proc.construct Proc.clean = Proc.clean := by
   induction ss with
   | nil => rfl
@@ -566,7 +610,7 @@ client's bytes no matter what an earlier server registered (combine with `C16_ro
 theorem C16_isolation_serve (ss : List Server) (codec : String → Codec) (s : Server) (r : Request) :
     serveP (ss.foldl Proc.construct Proc.clean) codec s r = serveS codec s r := by
   rw [C16_isolation]
-  simp [serveP, Proc.clean]
+  simp [serveP, Proc.server, Proc.clean]
 
 /-! ## non-vacuity -/
 
